@@ -22,6 +22,7 @@ func (s *State) evalAssignment(right object.Object, node *ast.InfixExpression) o
 		log.Warnf("Not assigning %q", right.Inspect())
 		return right
 	}
+	right = object.CopyRegister(right) // store the value, never the live register (its slot changes and is reused).
 	switch node.Left.Value().Type() {
 	case token.DOT:
 		idxE, ok := node.Left.(*ast.IndexExpression)
@@ -35,7 +36,7 @@ func (s *State) evalAssignment(right object.Object, node *ast.InfixExpression) o
 		if !ok {
 			return s.Errorf("assignment to non index [] expression %T %v", node.Left, ast.DebugString(node.Left))
 		}
-		index := s.Eval(idxE.Index)
+		index := object.CopyRegister(s.Eval(idxE.Index))
 		if index.Type() == object.ERROR {
 			return index
 		}
@@ -381,7 +382,7 @@ func (s *State) evalMapLiteral(node *ast.MapLiteral) object.Object {
 
 	for _, keyNode := range node.Order {
 		valueNode := node.Pairs[keyNode]
-		key := s.Eval(keyNode)
+		key := object.CopyRegister(s.Eval(keyNode))
 		if key.Type() == object.ERROR {
 			return key // an error in a key or value is the result, not an entry of the map.
 		}
@@ -389,7 +390,7 @@ func (s *State) evalMapLiteral(node *ast.MapLiteral) object.Object {
 			log.Warnf("key %s is not hashable", key.Inspect())
 			return s.NewError("key " + key.Inspect() + " is not hashable")
 		}
-		value := s.Eval(valueNode)
+		value := object.CopyRegister(s.Eval(valueNode))
 		if value.Type() == object.ERROR {
 			return value
 		}
